@@ -1020,6 +1020,18 @@ func main() {
 		coq["C04"] = append(coq["C04"], sc)
 		coq["C03"] = append(coq["C03"], sc)
 	}
+	// C04: the text written for integer and boolean values
+	for _, z := range []int64{0, 1, -1, 7, 10, -10, 99, 100, 255, 256, 65535, 65536, 1000000, -1000000, 2147483647, -2147483648, 4294967295, 9007199254740993, 9223372036854775807, -9223372036854775808} {
+		coq["C04"] = append(coq["C04"], fmt.Sprintf("CF {| f_val := VInt %s; f_text := %s |}", coqpp.Z(z), coqpp.Str(swag.FormatInt64(z))))
+	}
+	for i := 0; i < 40; i++ {
+		z := int64(r.U64())
+		coq["C04"] = append(coq["C04"], fmt.Sprintf("CF {| f_val := VInt %s; f_text := %s |}", coqpp.Z(z), coqpp.Str(swag.FormatInt64(z))))
+		z32 := int32(r.U64())
+		coq["C04"] = append(coq["C04"], fmt.Sprintf("CF {| f_val := VInt %s; f_text := %s |}", coqpp.Z(int64(z32)), coqpp.Str(swag.FormatInt32(z32))))
+	}
+	coq["C04"] = append(coq["C04"], "CF {| f_val := VBool true; f_text := "+coqpp.Str(swag.FormatBool(true))+" |}", "CF {| f_val := VBool false; f_text := "+coqpp.Str(swag.FormatBool(false))+" |}",
+		"CF {| f_val := VInt 18446744073709551615%Z; f_text := "+coqpp.Str(swag.FormatUint64(18446744073709551615))+" |}")
 	for prop, cs := range coq {
 		d := filepath.Join(*out, "coq-"+prop)
 		_ = os.MkdirAll(d, 0o755)
